@@ -39,6 +39,8 @@ type sessCfg struct {
 	MaxEvents   int    `json:"max_events"`
 	Hold        int    `json:"peer_hold"`
 	Scale       int    `json:"scale_percent"`
+	Undrained   bool   `json:"nobody_reads_EventChannel,omitempty"`
+	OneHandler  bool   `json:"one_handler,omitempty"`
 	Race        bool   `json:"race_flavour,omitempty"`
 }
 
@@ -105,6 +107,24 @@ func makeSessCfg(seed int64, index int, scale int) sessCfg {
 	return cfg
 }
 
+// makeUndrainedCfg: the scenario in which the application registers EventHandlers and never reads
+// EventChannel(): a small MaxInFlight (= capacity of the event channel), and the peer pushes more
+// events than that. The channel may discard when full (documented); the handlers must still see
+// every event. The barrier is the response to a trailing sentinel request, not an event.
+func makeUndrainedCfg(seed int64, index int) sessCfg {
+	r := mon.NewRand(seed, uint64(8_000_000+index))
+	b := sockConfigs[index%len(sockConfigs)]
+	m := 2 + r.Intn(3)
+	S := 1 + r.Intn(2)
+	k := m + 1 + r.Intn(3*m+4)
+	cfg := sessCfg{Index: index, Version: uint8(b.v), VName: b.name, Compression: string(b.comp), Senders: S, Scale: 100,
+		Transport: []string{"pipe", "tcp-connect", "tcp-shim"}[r.Intn(3)], MaxInFlight: m, MaxPending: 1 + r.Intn(10),
+		Auth: r.Intn(4) == 0, Explicit: r.Intn(5) == 0, Quota: m / S, EventRate: []int{1000, 1000, 600}[r.Intn(3)],
+		SpurRate: []int{0, 40}[r.Intn(2)], MaxEvents: k, Undrained: true, OneHandler: r.Bool()}
+	cfg.PerSender = (2*k + r.Intn(10) + S - 1) / S
+	return cfg
+}
+
 type session struct {
 	c        *mon.Ctx
 	cfg      sessCfg
@@ -149,7 +169,19 @@ func runSession(c *mon.Ctx, cfg sessCfg) {
 func runSession1(c *mon.Ctx, cfg sessCfg) {
 	s := &session{c: c, cfg: cfg, reqs: map[string]*reqLog{}, outst: map[*reqLog]client.InFlightRequest{}, ev: newEventLog("h0", "h1", "chan"), barrier: make(chan string, 8)}
 	v := primitive.ProtocolVersion(cfg.Version)
-	key := func(class string) string { return vkey("sock/"+cfg.VName, class) }
+	key := func(class string) string {
+		if cfg.Undrained {
+			switch class {
+			case "event/lost":
+				return "event/handler-missed-event/undrained-channel"
+			case "event/order":
+				return "event/handler-order/undrained-channel"
+			case "event/duplicate":
+				return "event/handler-duplicate/undrained-channel"
+			}
+		}
+		return vkey("sock/"+cfg.VName, class)
+	}
 	inconclusive := func(what string, note string) {
 		c.Inconclusive("sock/" + what)
 		if c.Counter("notes_"+what) < 3 {
@@ -187,6 +219,12 @@ func runSession1(c *mon.Ctx, cfg sessCfg) {
 		s.progress.Add(1)
 	}
 	handlers := []client.EventHandler{h0, h1}
+	sinks := []string{"h0", "h1", "chan"}
+	if cfg.OneHandler {
+		handlers = handlers[:1]
+		sinks = []string{"h0", "chan"}
+	}
+	s.ev = newEventLog(sinks...)
 	var creds *client.AuthCredentials
 	if cfg.Auth {
 		creds = &client.AuthCredentials{Username: "cassandra", Password: "cassandra"}
@@ -259,6 +297,9 @@ func runSession1(c *mon.Ctx, cfg sessCfg) {
 	evDone := make(chan struct{})
 	go func() {
 		defer close(evDone)
+		if cfg.Undrained {
+			return // nobody reads EventChannel() in this scenario
+		}
 		for {
 			select {
 			case f, ok := <-evCh:
@@ -399,7 +440,43 @@ wait:
 	}
 	aborted := conn.IsClosed() // closed by the library itself: not this property's business
 	barrierSeen := false
-	if !aborted {
+	if !aborted && cfg.Undrained {
+		// barrier = the response to a trailing request (a barrier *event* would itself be subject to
+		// what this scenario is about)
+		if !stuck {
+			uid := fmt.Sprintf("u%d-s", cfg.Index)
+			rl := &reqLog{uid: uid}
+			s.register(rl)
+			sid := int16(0)
+			if cfg.Explicit {
+				sid = 1
+			}
+			if r, err := conn.Send(requestFrame(v, sid, uid)); err == nil {
+				rl.mu.Lock()
+				rl.sid, rl.sent = r.StreamId(), true
+				rl.mu.Unlock()
+				ch := r.Incoming()
+				deadline := time.After(15 * time.Second)
+			sentinel:
+				for {
+					select {
+					case fr, ok := <-ch:
+						if !ok {
+							rl.setClosed(r.Err())
+							break sentinel
+						}
+						rl.addGot(fr)
+						barrierSeen = true
+					case <-deadline:
+						s.mu.Lock()
+						s.outst[rl] = r
+						s.mu.Unlock()
+						break sentinel
+					}
+				}
+			}
+		}
+	} else if !aborted {
 		select {
 		case p.ctl <- ctlMsg{barrier: 1}:
 		default:
@@ -509,7 +586,18 @@ drainEv:
 	if nEmitted > cfg.MaxInFlight {
 		lenient["chan"] = true
 	}
-	evClasses, dropped, anomalies := judgeEvents(s.ev, quiescent && !aborted, lenient)
+	var judgeOrder map[string]bool
+	if cfg.Undrained {
+		judgeOrder = map[string]bool{"h0": true, "h1": true}
+		c.Count("undrained_sessions", 1)
+		s.ev.mu.Lock()
+		if n := len(s.ev.sinks["chan"]); nEmitted > cfg.MaxInFlight && n == cfg.MaxInFlight {
+			c.Count("undrained_sessions_channel_found_full", 1)
+		}
+		s.ev.mu.Unlock()
+		c.Max("max_undrained_events_beyond_capacity", int64(nEmitted-cfg.MaxInFlight))
+	}
+	evClasses, dropped, anomalies := judgeEvents(s.ev, quiescent && !aborted, lenient, judgeOrder)
 	for _, class := range evClasses {
 		s.ev.mu.Lock()
 		d := map[string]any{"workload": "sock", "index": cfg.Index, "seed": c.Seed, "session": cfg, "classes": evClasses,
